@@ -30,6 +30,7 @@ import (
 	"github.com/9elements/converged-security-suite/v2/pkg/tpm"
 	"github.com/9elements/converged-security-suite/v2/pkg/tpmdetection"
 	"github.com/9elements/converged-security-suite/v2/pkg/tpmeventlog"
+	"github.com/linuxboot/fiano/pkg/fmap"
 	"github.com/linuxboot/fiano/pkg/intel/metadata/fit"
 	"github.com/linuxboot/fiano/pkg/uefi"
 	"gopkg.in/yaml.v3"
@@ -58,15 +59,16 @@ const (
 	dBytesRange    = 17
 	dDecryptFrame  = 18
 	dJSONRegs      = 19
+	dLocalFiles    = 20 // tpmdetection.local with a missing device / capability file (aux[0]: bit 0 device missing, bit 1 caps missing)
 
 	dParseACM     = 101
 	dYAMLRegs     = 103
 	dRegistersNew = 104
 	dIFD          = 106
 	dEventLog     = 107
-	dLocalFiles   = 108
 	dReadPubKey   = 110
 	dACMSplit     = 109 // front end of dACMInfo only: returns UserArea and the serialised module
+	dIFDParts     = 111 // the fiano probes behind GetRegion / CalcImageOffset and what the two functions returned (Extra1)
 )
 
 var decoderNames = map[int]string{
@@ -78,7 +80,7 @@ var decoderNames = map[int]string{
 	dLocalCaps: "tpmdetection.local", dBytesRange: "check.BytesRange", dDecryptFrame: "bootguard.DecryptPrivKey",
 	dJSONRegs: "registers.Registers.UnmarshalJSON", dParseACM: "tools.ParseACM", dYAMLRegs: "registers.Registers.UnmarshalYAML",
 	dRegistersNew: "registers.New", dIFD: "tools.CalcImageOffset/GetRegion", dEventLog: "tpmeventlog.Parse",
-	dLocalFiles: "tpmdetection.local(files)", dReadPubKey: "bootguard.ReadPubKey",
+	dLocalFiles: "tpmdetection.local(files)", dReadPubKey: "bootguard.ReadPubKey", dIFDParts: "tools.GetRegion/CalcImageOffset(parts)",
 }
 
 type request struct {
@@ -619,6 +621,40 @@ func call(req request, rep *reply) (run func() (func(*zs), error), skip bool) {
 				z0.u(uint64(o), uint64(s))
 			}
 			return func(z *zs) { z.b.WriteString(z0.b.String()) }, firstErr
+		}, false
+	case dIFDParts:
+		return func() (func(*zs), error) {
+			w := make([]uint64, ifdWords)
+			bit := func(b bool) uint64 {
+				if b {
+					return 1
+				}
+				return 0
+			}
+			// what fiano says about the descriptor (the two calls GetRegion makes)
+			if _, err := uefi.FindSignature(in1); err == nil {
+				if flash, err := uefi.NewFlashImage(in1); err == nil {
+					r := flash.IFD.Region.FlashRegions[uefi.RegionTypeBIOS]
+					w[ifdFound], w[ifdValid], w[ifdBase], w[ifdLimit] = 1, bit(r.Valid()), uint64(r.Base), uint64(r.Limit)
+				}
+			}
+			o, s, err := tools.GetRegion(in1, uefi.RegionTypeBIOS)
+			w[ifdGrOK], w[ifdGrOff], w[ifdGrSize] = bit(err == nil), uint64(o), uint64(s)
+			// getCorebootRegion is fmap.Read + IndexOfArea("COREBOOT")
+			if f, _, err := fmap.Read(bytes.NewReader(in1)); err == nil {
+				if i := f.IndexOfArea("COREBOOT"); i >= 0 {
+					w[ifdCbOK], w[ifdCbOff], w[ifdCbSize] = 1, uint64(f.Areas[i].Offset), uint64(f.Areas[i].Size)
+				}
+			}
+			_, berr := uefi.NewBIOSRegion(in1, nil, uefi.RegionTypeBIOS)
+			w[ifdBiosOK] = bit(berr == nil)
+			v, cerr := tools.CalcImageOffset(in1, uint64(aux(0)))
+			w[ifdCalcOK], w[ifdCalcVal] = bit(cerr == nil), v
+			rep.Extra1 = make([]byte, 8*ifdWords)
+			for i, x := range w {
+				binary.LittleEndian.PutUint64(rep.Extra1[8*i:], x)
+			}
+			return func(z *zs) {}, nil
 		}, false
 	case dEventLog:
 		return func() (func(*zs), error) {
